@@ -472,10 +472,11 @@ def classify(res, base_classes, v):
     if len(res) > 2 and res[2] in base_classes:
         return res[2]
     pre = _variant_prefix(v)
-    if pre is None or raw in base_classes or raw.startswith("default-depends-on-extension:"):
-        return raw
-    if raw.startswith("build-raises:") and any(c.startswith("build-raises:") for c in base_classes):
-        # the plain document does not build either: the variant only changes which defect fires first
+    if pre is None or raw in base_classes or raw.startswith("default-depends-on-extension:") or raw.startswith("invalid-"):
+        return raw  # (invalid-*:ignore-ext-base already names the variant)
+    if any(c.startswith("build-raises:") for c in base_classes):
+        # the plain document of this model does not build at all (another defect): whatever a variant that
+        # happens to avoid that defect shows cannot be attributed to the variant
         return raw
     return pre + ":" + raw
 
